@@ -1197,19 +1197,26 @@ Qed.
 
 
 (* ================================================================== part 4: file kind ==== *)
-(* the score reaches 3 exactly when the date indicator (2 points) fires together with one of the others *)
+Variable csvcount : list string -> option (list nat).
+
+(* the score reaches 3 exactly when the date indicator (2 points) fires together with one of the others;
+   a delimited table is never fixed-width *)
 Lemma fixed_width_decision all_lines :
-  is_fixed_width all_lines =
+  is_fixed_width csvcount all_lines =
   (Nat.leb 3 (count_if date2_prefix (firstn 20 all_lines))
-   && (uniform_long (firstn 20 all_lines) || Nat.leb 3 (count_if amt_at_end (firstn 20 all_lines))))%bool.
+   && (uniform_long (firstn 20 all_lines) || Nat.leb 3 (count_if amt_at_end (firstn 20 all_lines)))
+   && negb (looks_delimited csvcount all_lines))%bool.
 Proof.
-  unfold is_fixed_width, fw_score.
+  unfold is_fixed_width, fw_score. f_equal.
   destruct (uniform_long (firstn 20 all_lines)), (Nat.leb 3 (count_if date2_prefix (firstn 20 all_lines))),
     (Nat.leb 3 (count_if amt_at_end (firstn 20 all_lines))); reflexivity.
 Qed.
 
+Lemma delimited_not_fixed all_lines : looks_delimited csvcount all_lines = true -> is_fixed_width csvcount all_lines = false.
+Proof. intros H. unfold is_fixed_width. rewrite H. apply andb_false_r. Qed.
+
 Lemma few_dates_not_fixed all_lines :
-  count_if date2_prefix (firstn 20 all_lines) < 3 -> is_fixed_width all_lines = false.
+  count_if date2_prefix (firstn 20 all_lines) < 3 -> is_fixed_width csvcount all_lines = false.
 Proof.
   intros H. rewrite fixed_width_decision.
   destruct (Nat.leb_spec 3 (count_if date2_prefix (firstn 20 all_lines))); [lia|reflexivity].
@@ -1239,7 +1246,7 @@ Proof.
   destruct H as [->|H]; [now left|right; now apply IH].
 Qed.
 Lemma no_two_blanks_not_fixed all_lines :
-  (forall l, In l all_lines -> has_two_blanks l = false) -> is_fixed_width all_lines = false.
+  (forall l, In l all_lines -> has_two_blanks l = false) -> is_fixed_width csvcount all_lines = false.
 Proof.
   intros H. apply few_dates_not_fixed. rewrite count_if_zero; [lia|].
   intros x Hx. apply in_firstn in Hx. specialize (H x Hx).
@@ -1247,8 +1254,8 @@ Proof.
 Qed.
 
 Lemma inspect_end_to_end all_lines headers d :
-  is_fixed_width all_lines = false -> auto_detect headers = Some d ->
-  inspect_report all_lines headers = RDetected d (suggest d) /\
+  is_fixed_width csvcount all_lines = false -> auto_detect headers = Some d ->
+  inspect_report csvcount all_lines headers = RDetected d (suggest d) /\
   exists sp, parse_format fparse (suggest d) None = Ok sp /\
     f_date sp = a_date d /\ f_date_format sp = a_date_format d /\ f_desc sp = Some (a_desc d) /\
     f_amount sp = a_amount d /\ f_loc sp = a_loc d /\ f_neg sp = false /\ f_abs sp = false /\
@@ -1256,5 +1263,15 @@ Lemma inspect_end_to_end all_lines headers d :
 Proof.
   intros Hk Hd. split; [unfold inspect_report; now rewrite Hk, Hd|]. now apply (inspect_roundtrip headers).
 Qed.
+
+(* every delimited table with an auto-detectable header is reported with its columns and a suggestion that parses back *)
+Lemma csv_is_reported all_lines headers d :
+  looks_delimited csvcount all_lines = true -> auto_detect headers = Some d ->
+  inspect_report csvcount all_lines headers = RDetected d (suggest d) /\
+  exists sp, parse_format fparse (suggest d) None = Ok sp /\
+    f_date sp = a_date d /\ f_date_format sp = a_date_format d /\ f_desc sp = Some (a_desc d) /\
+    f_amount sp = a_amount d /\ f_loc sp = a_loc d /\ f_neg sp = false /\ f_abs sp = false /\
+    f_custom sp = [] /\ f_extra sp = [].
+Proof. intros H. apply inspect_end_to_end. now apply delimited_not_fixed. Qed.
 
 End WithFormatter.
